@@ -107,6 +107,7 @@ func init() {
 			build func(src execution.Node) execution.Node
 			evs   []stream.Ev
 			kind  int // 0 generic, 1 buffer
+			list  bool
 		}
 		var jobs []job
 		shortLen := r.Pick(3, 4)
@@ -116,15 +117,11 @@ func init() {
 				if !stateful && len(h) > shortLen {
 					continue
 				}
-				evs := h
-				if s.listInput {
-					evs = listify(h)
-				}
 				k := 0
 				if s.name == "event_time_buffer" {
 					k = 1
 				}
-				jobs = append(jobs, job{s.name, s.build, evs, k})
+				jobs = append(jobs, job{s.name, s.build, h, k, s.listInput})
 			}
 		}
 		// TVFs and the pipeline: rows [k, ts]
@@ -136,13 +133,13 @@ func init() {
 		rawOpts := tsOpts
 		rawOpts.RecTimes = []int{0}
 		for _, h := range stream.GenScripts(rawOpts) {
-			jobs = append(jobs, job{"max_diff_watermark(1s)", func(src execution.Node) execution.Node { return mustNode(mkMaxDiff(src, time.Second, nil)) }, h, 0})
+			jobs = append(jobs, job{"max_diff_watermark(1s)", func(src execution.Node) execution.Node { return mustNode(mkMaxDiff(src, time.Second, nil)) }, h, 0, false})
 			jobs = append(jobs, job{"pipeline max_diff_watermark->tumble(2s)->group_by(window_end,k) ON WATERMARK", func(src execution.Node) execution.Node {
 				md := mustNode(mkMaxDiff(src, time.Second, nil))
 				tb := mustNode(mkTumble(md, 2*time.Second, nil))
 				return nodes.NewCustomTriggerGroupBy([]func() nodes.Aggregate{aggregates.NewCountPrototype()}, []execution.Expression{constInt(1)},
 					[]execution.Expression{col(3), col(0)}, 0, tb, execution.NewWatermarkTriggerPrototype(0))
-			}, h, 0})
+			}, h, 0, false})
 		}
 		// (b) tumble over an already watermarked source whose event time is the ts column
 		{
@@ -166,14 +163,20 @@ func init() {
 			}
 			rec(st{})
 			for _, h := range hs {
-				jobs = append(jobs, job{"tumble(2s)", func(src execution.Node) execution.Node { return mustNode(mkTumble(src, 2*time.Second, nil)) }, h, 0})
+				jobs = append(jobs, job{"tumble(2s)", func(src execution.Node) execution.Node { return mustNode(mkTumble(src, 2*time.Second, nil)) }, h, 0, false})
 			}
 		}
 		if r.ShardChild() {
 			jobs = nil // the single-input part is done once, by the parent process
 		}
 		enum.Parallel(len(jobs), func(i int) {
+			if r.TimeUp() {
+				return
+			}
 			j := jobs[i]
+			if j.list {
+				j.evs = listify(j.evs)
+			}
 			log, err, pan := stream.RunSingle(j.build, j.evs)
 			r.AddCounts(1, int64(len(j.evs)+1), 1)
 			r.Eval(1)
@@ -261,7 +264,7 @@ func init() {
 		r.Extra["join_script_pairs"] = forEachJoinJob(func(int, jjob) {})
 		r.Sharded(16, 1, func(shard, n int) {
 			forEachJoinJob(func(i int, j jjob) {
-				if i%n != shard {
+				if i%n != shard || r.TimeUp() {
 					return
 				}
 				stream.Schedules(len(j.l)+1, len(j.r)+1, func(s []int) bool {
